@@ -10,7 +10,7 @@ import vlib
 
 TIERS = {
     'quick': dict(fams=[('shapes2', ''), ('taint', 'k1d0')], budget=60),
-    'thorough': dict(fams=[('shapes3', ''), ('taint', 'k2d0+k1d1'), ('guard', 'k1d0')], budget=120),
+    'thorough': dict(fams=[('shapes3e5', ''), ('taint', 'k2d0+k1d1'), ('guard', 'k1d0')], budget=120),
 }
 
 
